@@ -225,7 +225,7 @@ func TestVerif_C15_signbytes(t *testing.T) {
 	r.SetRule("Sign bytes: a family of prevote/precommit targets = {prevote, precommit} x edge heights (0,1,9,10,11,...,2^64-1) x edge rounds x hostile block hashes (nil, all 32 prefixes of one hash, newlines, '=', the literal labels 'Round=1\\n', 'NIL PREVOTE:', hex look-alikes) plus PRNG draws, " +
 		"and a family of proposals = generated headers (hash computed with SimpleHashScheme.Block) x rounds x proposal annotations, each with variants changing height, round, a signed field, or only fields outside the signed content. " +
 		"All sign bytes go into one index keyed by the bytes; two items with equal bytes but different (kind, height, round, block hash) are a violation (all pairs). " +
-		"Returned-value stability: in one goroutine (GOMAXPROCS 1) the helpers ProposalSignBytes/PrevoteSignBytes/PrecommitSignBytes are called in every order of 2-3 and in random orders of 2-6 for drawn targets; every returned slice is kept uncopied next to an immediate string copy and the scheme's own Write...SigningContent output, and after the following calls (every 16th sequence a runtime.GC, every 8th a burst of 9 more calls) each kept slice must still equal its copy and no two results may overlap in memory. " +
+		"Returned-value stability: in one goroutine (GOMAXPROCS 1) the helpers ProposalSignBytes/PrevoteSignBytes/PrecommitSignBytes are called in every order of 2-3 and in random orders of 2-6 for drawn targets; every returned slice is kept uncopied next to an immediate string copy and the scheme's own Write...SigningContent output, and after the following calls (every 16th sequence a runtime.GC - every 512th after the first 20000 -, every 8th a burst of 9 more calls) each kept slice must still equal its copy and no two results may overlap in memory. " +
 		"Non-trivial = distinct (kind, height, round, hash) identities indexed plus distinct helper call orders exercised.")
 
 	ci := &collisionIndex{r: r, byBytes: map[string]item{}, byID: map[string][]byte{}}
